@@ -1,7 +1,8 @@
 """print the mutant-agent prompt for a property:  mkmut.py C09 /tmp/mut/c09 3 'test_util.py tests/test_block.py'"""
 import json, sys
 pid, wt, n, tests = sys.argv[1:5]
+round2 = len(sys.argv) > 5
 p = [json.loads(l) for l in open('/verif/properties.jsonl') if json.loads(l)['id'] == pid][0]
 t = open('/verif/harness/MUTANT_PROMPT.txt').read()
 print(t.replace('{WT}', wt).replace('{TITLE}', p['title']).replace('{STATEMENT}', p['statement'])
-       .replace('{QUANT}', p['quantifier']['text']).replace('{N}', n).replace('{TESTS}', tests))
+       .replace('{QUANT}', p['quantifier']['text']).replace('{ROUND2}', ('This is a SECOND round: earlier changes of the obvious kinds (wrong index/width on one axis, dropped conjugate, off-by-one length, dropped copy, wrong dtype buffer) have already been tried. Prefer changes of these kinds: two cooperating sites that each look fine alone; a history- or order-dependent effect (caching, state carried between calls, in-place reuse); a refactoring into a shared helper that is subtly wrong for one caller; an optimisation with a fast path whose guard is slightly too wide; a change in a helper module (util, backend, config) that only matters for this property; numerical-edge behaviour (ties, exact zeros, size-1 or length-0 axes, negative strides/axes, very small or very large parameters).\n\n' if round2 else '')).replace('{N}', n).replace('{TESTS}', tests))
